@@ -525,7 +525,14 @@ def build(tier):
              default=True, extra=hij_all("HESz"))
     h_us = D("HUS", "struct", False, fields=[("a", h_s.t), ("e", h_es.t), ("items", vec_u8_u8)], default=True, extra=hij_all("HUS"))
     h_ue = D("HUE", "enum", False, variants=[("A", "unit", [], True), ("B", "tuple", [(None, h_ec.t), (None, h_us.t)], False),
-                                              ("C", "named", [("x", h_s.t)], False)], default=True, extra=hij_all("HUE"))
+                                              ("C", "named", [("x", h_s.t)], False)], default=True,
+             extra=hij_all("HUE") +
+             "// ... and on the generated tag helper of the unsized enum (it is emitted next to the type, so user code can name it)\n"
+             "impl HUETag {\n"
+             "    pub unsafe fn validate_unchecked(_: &[u8]) -> Result<(), flatty::Error> { Ok(()) }\n"
+             "    pub unsafe fn from_bytes_unchecked(_: &[u8]) -> &Self { loop {} }\n"
+             "    pub unsafe fn emplace_unchecked(self, _: &mut [u8]) -> Result<&mut Self, flatty::Error> { loop {} }\n"
+             "}\n")
     h_outer = D("HOuter", "struct", False, fields=[("id", U32), ("inner", h_ue.t)], default=True, extra=hij_all("HOuter"))
     # generic definitions (type and const parameters), each with two instantiations: the constants and rustc layouts of an instance
     # must follow the C rule for the substituted field list (layout rules only; the generated bodies are polymorphic)
